@@ -177,7 +177,10 @@ Definition xyz_affine (strict : bool) (O : orac) (im : img) : option (list (list
 Definition okey (big : nat) (o : option nat) : nat := match o with Some k => k | None => big end.
 Definition ornt_keys (l : list (option nat)) : list nat :=
   let big := S (fold_right (fun o m => Nat.max (okey 0 o) m) 0 l) in map (okey big) l.   (* nan -> inf *)
-Definition as_xyz (strict : bool) (O : orac) (im : img) : res img :=
+(* `np.argsort(current_in_order)`: with the default sort kind NumPy does not promise an order for
+   ties (several nan -> inf entries), so the sort is an ORACLE `S` as well; Exec.tab_sorter falls
+   back to the stable `argsort` above *)
+Definition as_xyz (strict : bool) (O : orac) (S : list nat -> list nat) (im : img) : res img :=
   match xyz_affine strict O im with
   | Some _ => Ok im
   | None =>
@@ -189,7 +192,7 @@ Definition as_xyz (strict : bool) (O : orac) (im : img) : res img :=
       if negb (forallb (fun k => match onat_index (Some k) cur with Some _ => true | None => false end) [0; 1; 2])
       then Err EReorder
       else
-        let im2 := reorder_axes (argsort (ornt_keys cur)) im1 in
+        let im2 := reorder_axes (S (ornt_keys cur)) im1 in
         match xyz_affine strict O im2 with Some _ => Ok im2 | None => Err EReorder end
     end
   end.
@@ -361,8 +364,8 @@ Definition nipy2nifti_xyz (strict fix0 : bool) (O : orac) (im : img) : res nimg 
         end)))
     end.
 
-Definition nipy2nifti (strict fix0 : bool) (O : orac) (im : img) : res nimg :=
-  bind (as_xyz strict O im) (nipy2nifti_xyz strict fix0 O).
+Definition nipy2nifti (strict fix0 : bool) (O : orac) (S : list nat -> list nat) (im : img) : res nimg :=
+  bind (as_xyz strict O S im) (nipy2nifti_xyz strict fix0 O).
 
 (* ------------------------------------------------------------ nifti2nipy *)
 Definition in_names3 (di : list (option nat)) : list string :=
